@@ -55,6 +55,7 @@ theorem cleanText_append (a b : Bytes) : cleanText (a ++ b) = (cleanText a && cl
 
 theorem bstr_208 : codeLine 208 ++ crlf = render [.line 208 (bstr "Command in progress")] := by decide +kernel
 theorem bstr_213 : codeLine 213 ++ crlf = render [.line 213 (bstr "Command cannot be handled by power control device(s)")] := by decide +kernel
+theorem bstr_203 : codeLine 203 ++ crlf = render [.line 203 (bstr "Command too long")] := by decide +kernel
 theorem bstr_201 : codeLine 201 ++ crlf = render [.line 201 (bstr "Unknown command")] := by decide +kernel
 theorem bstr_205 : codeLine 205 ++ crlf = render [.line 205 (bstr "Hostlist error: invalid range")] := by decide +kernel
 theorem bstr_101 : codeLine 101 ++ crlf = render [.line 101 (bstr "Goodbye")] := by decide +kernel
@@ -138,7 +139,13 @@ def plIdle (w : W) (c : Cli) (str : Bytes) : W × Cli :=
 /-- the stripped, NUL-cut request string `_parse_input` looks at -/
 def reqStr (line : Bytes) : Bytes := stripWs (line.takeWhile (· != 0))
 
+/-- `strlen(str) >= CP_LINEMAX` -/
+def TooLong (line : Bytes) : Prop := (reqStr line).length ≥ lineMax
+
+instance (line : Bytes) : Decidable (TooLong line) := inferInstanceAs (Decidable ((reqStr line).length ≥ lineMax))
+
 def parseLine' (w : W) (c : Cli) (line : Bytes) : W × Cli :=
+  if TooLong line then plFin w c (codeLine 203 ++ crlf) else
   if c.cmd.isSome then (w, put c (codeLine 208 ++ crlf)) else plIdle w c (reqStr line)
 
 theorem parseLine_eq (w : W) (c : Cli) (line : Bytes) : parseLine w c line = parseLine' w c line := by
@@ -314,7 +321,7 @@ theorem written_write (fd : Nat) (b : Bytes) (e bl : Bool) : written [Sys.write 
   simp [written]
 
 def infoCodesP : List Nat := [301, 304, 306, 307]
-def termCodesP : List Nat := [101, 103, 104, 105, 201, 205, 208, 209, 213]
+def termCodesP : List Nat := [101, 103, 104, 105, 201, 203, 205, 208, 209, 213]
 /-- lines whose text embeds configuration or request data (names, host ranges); all other lines have fixed text -/
 def dataCodesP : List Nat := [304, 306, 307, 209]
 
@@ -367,6 +374,7 @@ structure LineFrame (w : W) (c : Cli) (r : W × Cli) : Prop where
   fd : r.2.fd = c.fd
   fromBuf : r.2.fromBuf = c.fromBuf
   clients : r.1.clients = w.clients
+  fromSize : r.2.fromSize = c.fromSize
 
 /-- generic way to establish the `reply` outcome for the branches that only append to `to` -/
 theorem mkReply (w : W) (c0 : Cli) (r : W × Cli) (infos : List Item) (code : Nat) (text : Bytes)
@@ -394,7 +402,7 @@ theorem plFin_outcome (w : W) (c0 c : Cli) (b : Bytes) (infos : List Item) (code
     (hcl : FixedClean dataCodesP (infos ++ [Item.line code text])) : LineOutcome w c0 (plFin w c b) :=
   mkReply w c0 _ infos code text rfl rfl h3 h2 (by simp only [plFin, put, h1, hb]) hi hc h208 h101 hcl
 
-theorem plFin_frame (w : W) (c : Cli) (b : Bytes) : LineFrame w c (plFin w c b) := ⟨rfl, rfl, rfl, rfl⟩
+theorem plFin_frame (w : W) (c : Cli) (b : Bytes) : LineFrame w c (plFin w c b) := ⟨rfl, rfl, rfl, rfl, rfl⟩
 
 
 /-! ### the branches -/
@@ -522,7 +530,7 @@ theorem plNodes_outcome (w : W) (c : Cli) : LineOutcome w c (plNodes w c) := by
     · exact .append (.of_data (nodesItems_data _ _)) (.of_clean (by decide +kernel))
 
 theorem plNodes_frame (w : W) (c : Cli) : LineFrame w c (plNodes w c) := by
-  unfold plNodes; split <;> exact ⟨rfl, rfl, rfl, rfl⟩
+  unfold plNodes; split <;> exact ⟨rfl, rfl, rfl, rfl, rfl⟩
 
 
 theorem bstr_104 (b : Bool) : bstr "104 Telemetry " ++ bstr (if b then "ON" else "OFF") ++ crlf =
@@ -546,8 +554,8 @@ theorem plExprange_outcome (w : W) (c : Cli) : LineOutcome w c (plExprange w c) 
   unfold plExprange
   refine plFin_outcome w c _ _ [] 105 _ rfl rfl rfl (by rw [bstr_105]; rfl) (by simp) (by decide) (by decide) (by decide) (.of_clean (onoff_clean _ _ (by decide +kernel) _))
 
-theorem plTelemetry_frame (w : W) (c : Cli) : LineFrame w c (plTelemetry w c) := ⟨rfl, rfl, rfl, rfl⟩
-theorem plExprange_frame (w : W) (c : Cli) : LineFrame w c (plExprange w c) := ⟨rfl, rfl, rfl, rfl⟩
+theorem plTelemetry_frame (w : W) (c : Cli) : LineFrame w c (plTelemetry w c) := ⟨rfl, rfl, rfl, rfl, rfl⟩
+theorem plExprange_frame (w : W) (c : Cli) : LineFrame w c (plExprange w c) := ⟨rfl, rfl, rfl, rfl, rfl⟩
 
 abbrev item101 : Item := .line 101 (bstr "Goodbye")
 
@@ -570,14 +578,14 @@ theorem plQuit_spec (w : W) (c : Cli) : QuitFlush w c (plQuit w c) [item101] ∧
       unfold plQuit handleWrite
       simp only [put, bstr_101, if_true, hne, Bool.false_eq_true, if_false, hcap]
     rw [this]
-    exact ⟨⟨rfl, Or.inl ⟨hcap, rfl, rfl⟩⟩, rfl, rfl, ⟨rfl, rfl, rfl, rfl⟩⟩
+    exact ⟨⟨rfl, Or.inl ⟨hcap, rfl, rfl⟩⟩, rfl, rfl, ⟨rfl, rfl, rfl, rfl, rfl⟩⟩
   · have : plQuit w c = ({ w with sys := w.sys ++ [Sys.write c.fd (c.toBuf ++ render [item101]) false
           (capOf w c.fd < ((c.toBuf ++ render [item101]).length : Int))] },
         { c with quit := true, blocking := true, toBuf := [] }) := by
       unfold plQuit handleWrite
       simp only [put, bstr_101, if_true, hne, Bool.false_eq_true, if_false, hcap]
     rw [this]
-    exact ⟨⟨rfl, Or.inr ⟨hcap, rfl, rfl⟩⟩, rfl, rfl, ⟨rfl, rfl, rfl, rfl⟩⟩
+    exact ⟨⟨rfl, Or.inr ⟨hcap, rfl, rfl⟩⟩, rfl, rfl, ⟨rfl, rfl, rfl, rfl, rfl⟩⟩
 
 theorem QuitFlush.out {w : W} {c : Cli} {r : W × Cli} {items : List Item} (h : QuitFlush w c r items) (hfd : r.2.fd = c.fd) :
     outOf r.1 r.2 = outOf w c ++ render items := by
@@ -620,11 +628,11 @@ theorem install_frame (w : W) (c : Cli) (com : Com) (names : List Name) : LineFr
   unfold install
   dsimp only
   split
-  · exact ⟨rfl, rfl, rfl, rfl⟩
+  · exact ⟨rfl, rfl, rfl, rfl, rfl⟩
   · generalize List.foldl _ _ w.devs = r
     obtain ⟨devs, total⟩ := r
     dsimp only
-    split <;> exact ⟨rfl, rfl, rfl, rfl⟩
+    split <;> exact ⟨rfl, rfl, rfl, rfl, rfl⟩
 
 
 theorem lineIn_mono {a b : List Nat} (h : ∀ x ∈ a, x ∈ b) (i : Item) (hi : i.lineIn a = true) : i.lineIn b = true := by
@@ -650,7 +658,7 @@ theorem plDevice_frame (w : W) (c : Cli) (str : Bytes) : LineFrame w c (plDevice
   split
   · exact plFin_frame ..
   · split
-    · exact ⟨rfl, rfl, rfl, rfl⟩
+    · exact ⟨rfl, rfl, rfl, rfl, rfl⟩
     · exact plFin_frame ..
 
 theorem bstr_209 : bstr "209 No such nodes: " = code3 209 ++ [32] ++ bstr "No such nodes: " := by decide +kernel
@@ -671,7 +679,7 @@ theorem plCmd_outcome (w : W) (c : Cli) (com : Com) (arg : Bytes) (hidle : c.cmd
 theorem plCmd_frame (w : W) (c : Cli) (com : Com) (arg : Bytes) : LineFrame w c (plCmd w c com arg) := by
   unfold plCmd
   split
-  · exact ⟨rfl, rfl, rfl, rfl⟩
+  · exact ⟨rfl, rfl, rfl, rfl, rfl⟩
   · exact plFin_frame ..
   · dsimp only
     split
@@ -734,9 +742,47 @@ abbrev item208 : Item := .line 208 (bstr "Command in progress")
 
 /-- C11 one-command rule: while a command is in progress a request line is answered `208` and nothing else in the
     world changes -/
-theorem parseLine_busy (w : W) (c : Cli) (line : Bytes) (h : c.cmd.isSome = true) :
+theorem parseLine_busy (w : W) (c : Cli) (line : Bytes) (h : c.cmd.isSome = true) (hs : ¬ TooLong line) :
     parseLine w c line = (w, put c (render [item208])) := by
-  rw [parseLine_eq]; unfold parseLine'; rw [if_pos h, bstr_208]
+  rw [parseLine_eq]; unfold parseLine'; rw [if_neg hs, if_pos h, bstr_208]
+
+abbrev item203 : Item := .line 203 (bstr "Command too long")
+
+/-- `CP_ERR_TOOLONG`: a line whose stripped text has `CP_LINEMAX` bytes or more is answered `203 Command too long` and —
+    the branch falls through to the end of `_parse_input` — the prompt (unless the client has quit), whatever the
+    client's state, also with a command in progress; nothing else changes, neither in the client nor in the world -/
+theorem parseLine_tooLong (w : W) (c : Cli) (line : Bytes) (h : TooLong line) :
+    parseLine w c line = (w, put c (render [item203] ++ (if c.quit then [] else prompt))) := by
+  rw [parseLine_eq]; unfold parseLine'; rw [if_pos h, bstr_203]; rfl
+
+/-! a concrete family of lines for the non-vacuity examples: `n` times `x`, then LF -/
+
+theorem takeWhile_xs (n : Nat) :
+    (List.replicate n (120 : UInt8) ++ [10]).takeWhile (· != 0) = List.replicate n 120 ++ [10] := by
+  induction n with
+  | zero => decide
+  | succ k ih => rw [List.replicate_succ, List.cons_append, List.takeWhile_cons_of_pos (by decide), ih]
+
+theorem reqStr_xs (n : Nat) : reqStr (List.replicate n 120 ++ [10]) = List.replicate n 120 := by
+  unfold reqStr stripWs
+  rw [takeWhile_xs]
+  cases n with
+  | zero => decide
+  | succ k =>
+    have h1 : (List.replicate (k + 1) (120 : UInt8) ++ [10]).dropWhile isSpace = List.replicate (k + 1) 120 ++ [10] := by
+      rw [List.replicate_succ, List.cons_append, List.dropWhile_cons_of_neg (by decide)]
+    rw [h1, List.reverse_append, List.reverse_replicate]
+    have h2 : ([10] : Bytes).reverse ++ List.replicate (k + 1) 120 = 10 :: 120 :: List.replicate k 120 := by
+      rw [List.replicate_succ]; rfl
+    rw [h2, List.dropWhile_cons_of_pos (by decide), List.dropWhile_cons_of_neg (by decide), ← List.replicate_succ,
+      List.reverse_replicate]
+
+/-- `CP_LINEMAX` times `x` and a line feed is too long, one `x` fewer is not -/
+theorem tooLong_xs (n : Nat) : TooLong (List.replicate n 120 ++ [10]) ↔ n ≥ 131072 := by
+  unfold TooLong; rw [reqStr_xs, List.length_replicate]; rfl
+
+theorem tooLong_outcome (w : W) (c : Cli) : LineOutcome w c (plFin w c (codeLine 203 ++ crlf)) :=
+  plFin_outcome w c c _ [] 203 (bstr "Command too long") rfl rfl rfl (by rw [bstr_203]; rfl) (by simp) (by decide) (by decide) (by decide) (.of_clean (by decide +kernel))
 
 theorem busy_outcome (w : W) (c : Cli) (hb : c.cmd.isSome = true) : LineOutcome w c (w, put c (render [item208])) := by
   refine .reply [item208] ⟨[], 208, bstr "Command in progress", ?_, by simp, by decide⟩ ?_ (Or.inl ⟨rfl, rfl⟩) rfl rfl (.of_clean (by decide +kernel)) ?_
@@ -746,17 +792,21 @@ theorem busy_outcome (w : W) (c : Cli) (hb : c.cmd.isSome = true) : LineOutcome 
 
 /-- C04/C06/C15 core: the three possible outcomes of one request line, for every line, client and world -/
 theorem parseLine_shape (w : W) (c : Cli) (line : Bytes) : LineOutcome w c (parseLine w c line) := by
+  by_cases hl : TooLong line
+  · rw [parseLine_eq]; unfold parseLine'; rw [if_pos hl]; exact tooLong_outcome w c
   cases h : c.cmd.isSome with
-  | true => rw [parseLine_busy w c line h]; exact busy_outcome w c h
+  | true => rw [parseLine_busy w c line h hl]; exact busy_outcome w c h
   | false =>
-    rw [parseLine_eq]; unfold parseLine'; rw [if_neg (by simp [h])]
+    rw [parseLine_eq]; unfold parseLine'; rw [if_neg hl, if_neg (by simp [h])]
     exact plIdle_outcome w c _ (by simpa using h)
 
 theorem parseLine_frame (w : W) (c : Cli) (line : Bytes) : LineFrame w c (parseLine w c line) := by
   rw [parseLine_eq]; unfold parseLine'
   split
-  · exact ⟨rfl, rfl, rfl, rfl⟩
-  · exact plIdle_frame ..
+  · exact plFin_frame ..
+  · split
+    · exact ⟨rfl, rfl, rfl, rfl, rfl⟩
+    · exact plIdle_frame ..
 
 
 /-! ### payloads from the device side: `dbg_memstr` text and the diagnostic of `setresult` -/
@@ -861,26 +911,24 @@ theorem setresult_diag (d : Dev) (a : Action) (o : Oracle) (p s : Int) (i : List
   intro x hx c t hxt
   unfold Pm.Dev2.stmtSetresult at hx
   split at hx
-  · simp at hx; subst hx; cases hxt
+  · simp at hx
   · split at hx
+    · rename_i sv plug hs hf
+      have hnd := pickResult_noDiag sv i o [] (by simp)
+      generalize Pm.Dev2.pickResult Pm.Dev2.askRx sv i o [] = pr at hx hnd
+      obtain ⟨o', res, errs⟩ := pr
+      simp only [List.mem_append] at hx
+      rcases hx with hx | hx
+      · have := hnd x hx; rw [hxt] at this; simp [isDiag] at this
+      · split at hx
+        · simp at hx; rw [hxt] at hx; cases hx
+          obtain ⟨hm, hn⟩ := findPlug_mem d _ plug hf
+          refine ⟨plug.node.getD [], _, (List.append_assoc ..).symm, cleanText_take _ _ (takeWhile_clean sv), (by rw [List.length_take]; exact Nat.min_le_left _ _), plug, hm, ?_⟩
+          cases hpn : plug.node with
+          | none => rw [hpn] at hn; simp at hn
+          | some n => rfl
+        · simp at hx
     · simp at hx
-    · split at hx
-      · rename_i sv plug hs hf
-        have hnd := pickResult_noDiag sv i o [] (by simp)
-        generalize Pm.Dev2.pickResult Pm.Dev2.askRx sv i o [] = pr at hx hnd
-        obtain ⟨o', res, errs⟩ := pr
-        simp only [List.mem_append] at hx
-        rcases hx with hx | hx
-        · have := hnd x hx; rw [hxt] at this; simp [isDiag] at this
-        · split at hx
-          · simp at hx; rw [hxt] at hx; cases hx
-            obtain ⟨hm, hn⟩ := findPlug_mem d _ plug hf
-            refine ⟨plug.node.getD [], _, (List.append_assoc ..).symm, cleanText_take _ _ (takeWhile_clean sv), (by rw [List.length_take]; exact Nat.min_le_left _ _), plug, hm, ?_⟩
-            cases hpn : plug.node with
-            | none => rw [hpn] at hn; simp at hn
-            | some n => rfl
-          · simp at hx
-      · simp at hx
 
 
 /-! ### the banner -/
